@@ -100,7 +100,9 @@ structure Env where
   serialisable : Obj → Bool
 
 def Coll.fs (c : Coll) (op : FsOp) : Coll :=
-  { c with disk := c.disk.apply op, log := c.log ++ [op] }
+  match op, c.disk.dir with
+  | .mkdir, true => c            -- `MkdirAll` on an existing directory changes nothing
+  | _, _ => { c with disk := c.disk.apply op, log := c.log ++ [op] }
 
 /-! ### case canonicalisation (constraints.go) -/
 
